@@ -28,10 +28,12 @@ static int in_write, overlap;
 static int cleaned, wrote_after_cleanup;
 static pthread_mutex_t wm = PTHREAD_MUTEX_INITIALIZER; /* a schedule point inside the writer */
 
+static void (*write_hook)(void); /* scenario-specific: runs inside the writer, i.e. on the thread that delivers the line */
 static int rec_write(struct aws_log_writer *w, const struct aws_string *line) {
     (void)w;
     if (in_write) overlap++;
     in_write = 1;
+    if (write_hook) write_hook();
     pthread_mutex_lock(&wm); /* lets the scheduler preempt in the middle of a write */
     pthread_mutex_unlock(&wm);
     if (cleaned) wrote_after_cleanup++;
@@ -52,6 +54,7 @@ static void setup_common(void) {
     galloc_reset();
     A = galloc_get(0, 0);
     nseen = in_write = overlap = cleaned = wrote_after_cleanup = 0;
+    write_hook = NULL;
     writer.vtable = &rec_vt;
     writer.allocator = A;
     writer.impl = NULL;
@@ -328,6 +331,62 @@ static void l8(void) {
     int cnt[3] = {1, 1, 11};
     finish_channel(cnt, 3);
 }
+/* L9: a third party.  Main has sent a line and is inside clean-up; while the background thread is writing a batch, another
+ * thread's send is accepted (the writer itself lets that thread go and waits until its send has returned, so the line is
+ * accepted strictly before the background thread looks at the queue again).  It has to reach the writer like any other
+ * accepted line, whichever of clean-up's "finished" store and the background thread's batch swap came first (added after a
+ * seeded change that let the background thread leave right after a batch it had taken with the finished flag already set) */
+static pthread_mutex_t l9m = PTHREAD_MUTEX_INITIALIZER;
+static pthread_cond_t l9c = PTHREAD_COND_INITIALIZER;
+static int l9_cleanup_called, l9_go, l9_sent, l9_abort;
+static void l9_hook(void) {
+    pthread_mutex_lock(&l9m);
+    if (l9_cleanup_called && !l9_go) {
+        l9_go = 1;
+        pthread_cond_broadcast(&l9c);
+        while (!l9_sent) pthread_cond_wait(&l9c, &l9m);
+    }
+    pthread_mutex_unlock(&l9m);
+}
+static void *l9_sender(void *p) {
+    (void)p;
+    pthread_mutex_lock(&l9m);
+    while (!l9_go && !l9_abort) pthread_cond_wait(&l9c, &l9m);
+    int send = l9_go;
+    pthread_mutex_unlock(&l9m);
+    if (send) {
+        send_line(0, 0);
+        pthread_mutex_lock(&l9m);
+        l9_sent = 1;
+        pthread_cond_broadcast(&l9c);
+        pthread_mutex_unlock(&l9m);
+    }
+    return NULL;
+}
+static void l9(void) {
+    setup_common();
+    l9_cleanup_called = l9_go = l9_sent = l9_abort = 0;
+    write_hook = l9_hook;
+    if (aws_log_channel_init_background(&chan, A, &writer)) vs_harness_error("channel init");
+    pthread_t t;
+    pthread_create(&t, NULL, l9_sender, NULL);
+    send_line(2, 0);
+    pthread_mutex_lock(&l9m);
+    l9_cleanup_called = 1;
+    pthread_mutex_unlock(&l9m);
+    aws_log_channel_clean_up(&chan);
+    cleaned = 1;
+    pthread_mutex_lock(&l9m);
+    l9_abort = 1;
+    pthread_cond_broadcast(&l9c);
+    pthread_mutex_unlock(&l9m);
+    pthread_join(t, NULL);
+    VS_CHECK(vs_threads_unfinished() == 0, "thread-alive-after-cleanup", "background thread still running after clean-up returned");
+    int cnt[3] = {l9_go ? 1 : 0, 0, 1};
+    check_lines(cnt, 3);
+    VS_CHECK(ga.live_blocks == 0, "leak", "%llu allocation(s) still live after clean-up", (unsigned long long)ga.live_blocks);
+    vs_outcome("third-party send %s", l9_go ? "accepted during a write while clean-up was in progress" : "not triggered (line written before clean-up began)");
+}
 int main(int argc, char **argv) {
     v_init(argc, argv);
     aws_common_library_init(aws_default_allocator());
@@ -339,6 +398,7 @@ int main(int argc, char **argv) {
         {.name = "L5-pipeline-logf", .run = l5, .bound_quick = 2, .bound_thorough = 3, .digest = dig},
         {.name = "L6-noalloc-two-threads", .run = l6, .bound_quick = 2, .bound_thorough = 4, .digest = dig},
         {.name = "L8-bg-two-senders-on-a-full-queue", .run = l8, .bound_quick = 1, .bound_thorough = 2, .digest = dig},
+        {.name = "L9-bg-third-party-send-during-cleanup", .run = l9, .bound_quick = 2, .bound_thorough = 3, .digest = dig},
         {.name = "L7-noalloc-first-write-fails", .run = l7a, .bound_quick = 1, .bound_thorough = 3, .digest = dig},
         {.name = "L7-noalloc-second-write-fails", .run = l7b, .bound_quick = 1, .bound_thorough = 3, .digest = dig},
     };
